@@ -1475,8 +1475,12 @@ func genAPIMode(r *rng, full bool) string {
 		if r.chance(1, 4) {
 			partial = enc(bson.D{{Key: "c", Value: g.scalar()}})
 		}
-		parts = append(parts, "(createIndex 0 "+hx(apiDbs[0])+" "+hx(apiColls[0])+" x "+enc(bson.D{{Key: f, Value: int32(1)}})+" T "+partial+" NIL)")
-		g.knownNames = append(g.knownNames, f+"_1")
+		dir := int32(1)
+		if r.chance(1, 4) {
+			dir = -1 // a descending unique index: the btree order is reversed, uniqueness is not
+		}
+		parts = append(parts, "(createIndex 0 "+hx(apiDbs[0])+" "+hx(apiColls[0])+" x "+enc(bson.D{{Key: f, Value: dir}})+" T "+partial+" NIL)")
+		g.knownNames = append(g.knownNames, fmt.Sprintf("%s_%d", f, dir))
 		g.uniqField = f
 	} else if r.chance(1, 3) {
 		// a unique compound index on (a, b) or (b, a) in every combination of
